@@ -16,6 +16,8 @@ def run(ctx):
     moneycheck.model(ctx)
     moneycheck.judge(ctx, moneycheck.apply_cases(ctx, rnd), 'apply')
     pricecheck.run(ctx)
+    # money * rate / money / rate calls of the repository's own test suite
+    moneycheck.repo_suite(ctx, {'money_rate'})
 
 
 def replay(ctx, rp):
